@@ -4,7 +4,7 @@ From Relay Require Import Base.Prelude Base.AList Model.Resources.
 Local Notation E := N.eqb_eq.
 
 Ltac proj := cbn [joined ended topic h_sock h_reader h_writer h_watcher h_member h_chan h_timer
-                  sock_dead send_closed cancelled done_ timer_fired denied_] in *.
+                  sock_dead send_closed cancelled done_ timer_fired denied_ shutdown_] in *.
 
 Ltac split_ifs :=
   repeat match goal with
@@ -13,7 +13,7 @@ Ltac split_ifs :=
 
 (* ---- well-formedness of a connection record, as a boolean so that it can be computed with ---- *)
 Definition triggered (c : conn) : bool :=
-  sock_dead c || send_closed c || cancelled c || done_ c || timer_fired c || denied_ c.
+  sock_dead c || send_closed c || cancelled c || done_ c || timer_fired c || denied_ c || shutdown_ c.
 
 Definition wfb (c : conn) : bool :=
   (* refused: nothing but, possibly, the socket *)
@@ -40,8 +40,8 @@ Definition holds_none (c : conn) : bool :=
   negb (h_member c) && negb (h_chan c) && negb (h_timer c).
 
 (* ---- deciding a boolean property of ALL connection records by computation: a record is its
-        topic and fifteen booleans, so a property that does not look at the topic is checked on
-        the 2^15 records by vm_compute ---- *)
+        topic and sixteen booleans, so a property that does not look at the topic is checked on
+        the 2^16 records by vm_compute ---- *)
 Fixpoint forall_bools (n : nat) (f : list bool -> bool) : bool :=
   match n with
   | O => f []
@@ -58,30 +58,30 @@ Qed.
 
 Definition bits (c : conn) : list bool :=
   [joined c; ended c; h_sock c; h_reader c; h_writer c; h_watcher c; h_member c; h_chan c; h_timer c;
-   sock_dead c; send_closed c; cancelled c; done_ c; timer_fired c; denied_ c].
+   sock_dead c; send_closed c; cancelled c; done_ c; timer_fired c; denied_ c; shutdown_ c].
 
 Definition conn_of (tp : N) (l : list bool) : conn :=
   match l with
-  | [j; e; hs; hr; hw; hwa; hm; hc; ht; sd; sc; ca; dn; tf; de] => mkconn j e tp hs hr hw hwa hm hc ht sd sc ca dn tf de
-  | _ => mkconn false true tp false false false false false false false false false false false false false
+  | [j; e; hs; hr; hw; hwa; hm; hc; ht; sd; sc; ca; dn; tf; de; sh] => mkconn j e tp hs hr hw hwa hm hc ht sd sc ca dn tf de sh
+  | _ => mkconn false true tp false false false false false false false false false false false false false false
   end.
 
 Lemma conn_of_bits c : conn_of (topic c) (bits c) = c.
 Proof. destruct c; reflexivity. Qed.
 
 Lemma all_conn (P : conn -> bool) :
-  (forall tp, forall_bools 15 (fun l => P (conn_of tp l)) = true) -> forall c, P c = true.
+  (forall tp, forall_bools 16 (fun l => P (conn_of tp l)) = true) -> forall c, P c = true.
 Proof.
   intros H c. rewrite <- (conn_of_bits c).
-  apply (forall_bools_spec 15 (fun l => P (conn_of (topic c) l)) (H (topic c)) (bits c)). reflexivity.
+  apply (forall_bools_spec 16 (fun l => P (conn_of (topic c) l)) (H (topic c)) (bits c)). reflexivity.
 Qed.
 
 Ltac by_all_conn := apply all_conn; intros tp; vm_compute; reflexivity.
 
 Lemma conn_ext c d : bits c = bits d -> topic c = topic d -> c = d.
 Proof.
-  destruct c as [j e tp hs hr hw hwa hm hc ht sd sc ca dn tf de].
-  destruct d as [j' e' tp' hs' hr' hw' hwa' hm' hc' ht' sd' sc' ca' dn' tf' de'].
+  destruct c as [j e tp hs hr hw hwa hm hc ht sd sc ca dn tf de sh].
+  destruct d as [j' e' tp' hs' hr' hw' hwa' hm' hc' ht' sd' sc' ca' dn' tf' de' sh'].
   unfold bits; proj. intros H Ht; inversion H; subst; reflexivity.
 Qed.
 
@@ -93,7 +93,7 @@ Qed.
 
 Lemma held_nil c : holds_none c = true -> held c = [].
 Proof.
-  destruct c as [j e tp hs hr hw hwa hm hc ht sd sc ca dn tf de]. unfold holds_none, held, all_res, holds. proj.
+  destruct c as [j e tp hs hr hw hwa hm hc ht sd sc ca dn tf de sh]. unfold holds_none, held, all_res, holds. proj.
   destruct hs, hr, hw, hwa, hm, hc, ht; cbn; intros H; try discriminate; reflexivity.
 Qed.
 
@@ -106,7 +106,7 @@ Qed.
 Lemma wf_connect o tp b : wfb (connect o tp b) = true.
 Proof. destruct o as [|r]; [destruct b; reflexivity|destruct r; reflexivity]. Qed.
 
-Definition real_reasons : list reason := [ClientClose; NetLoss; Expiry; Cancel; Evict].
+Definition real_reasons : list reason := [ClientClose; NetLoss; Expiry; Cancel; Evict; Shutdown].
 
 Lemma wf_end_all : forall c, implb (wfb c) (forallb (fun r => wfb (end_with r c)) real_reasons) = true.
 Proof. by_all_conn. Qed.
@@ -115,7 +115,7 @@ Lemma wf_end r c : wfb c = true -> wfb (end_with r c) = true.
 Proof.
   intros H. pose proof (wf_end_all c) as Ha. rewrite H in Ha. cbn [implb] in Ha.
   rewrite forallb_forall in Ha.
-  destruct r as [| | | | |rr]; [apply Ha; cbn; auto 10 ..|].
+  destruct r as [| | | | | |rr]; [apply Ha; cbn; auto 10 ..|].
   unfold end_with. destruct (negb (joined c)); exact H.
 Qed.
 
@@ -145,7 +145,7 @@ Qed.
 Lemma topic_reader c : topic (step_reader c) = topic c.
 Proof. unfold step_reader. destruct (h_reader c && sock_dead c); reflexivity. Qed.
 Lemma topic_writer c : topic (step_writer c) = topic c.
-Proof. unfold step_writer. destruct (h_writer c && (send_closed c || cancelled c)); reflexivity. Qed.
+Proof. unfold step_writer. destruct (h_writer c && (send_closed c || cancelled c || shutdown_ c)); reflexivity. Qed.
 Lemma topic_watcher c : topic (step_watcher c) = topic c.
 Proof. unfold step_watcher. destruct (h_watcher c && (timer_fired c || denied_ c || done_ c)); reflexivity. Qed.
 Lemma topic_settle c : topic (settle c) = topic c.
@@ -396,4 +396,71 @@ Proof.
     pose proof (live_untouched_all c) as Ha. rewrite Hc, J, En in Ha. cbn [andb orb negb implb] in Ha.
     repeat (apply andb_true_iff in Ha; destruct Ha as [Ha ?]).
     destruct Hk as [-> | [-> | ->]]; cbn [holds]; assumption.
+Qed.
+
+(* ---- no ghosts: in every reachable state whoever is listed / has a deny channel recorded is an
+        accepted connection whose reader is still running ---- *)
+Lemma no_ghost_all : forall c,
+  implb (wfb c && (h_member c || h_chan c)) (joined c && h_reader c) = true.
+Proof. by_all_conn. Qed.
+
+Lemma listed_has_reader h id c :
+  clk id (run h) = Some c -> h_member c = true \/ h_chan c = true -> joined c = true /\ h_reader c = true.
+Proof.
+  intros L Hm. destruct (wf_run h) as [_ Hwf]. pose proof (Hwf _ _ L) as Hc.
+  pose proof (no_ghost_all c) as Ha.
+  destruct (joined c && h_reader c) eqn:E1; [apply andb_true_iff in E1; exact E1|].
+  exfalso. rewrite Hc in Ha. destruct Hm as [Hm|Hm]; rewrite Hm in Ha; [|rewrite orb_true_r in Ha]; discriminate Ha.
+Qed.
+
+(* ---- the idle baseline: with no live connection nothing but F08a's sockets is held ---- *)
+Lemma idle_baseline h k :
+  live (run h) = 0%N -> k <> Sock -> count_res k (settle_all (run h)) = 0%N.
+Proof.
+  intros Hl Hk. pose proof (footprint_bounded h k) as Hb. rewrite Hl in Hb.
+  destruct k; try congruence; lia.
+Qed.
+
+(* ---- any end reason that reaches an accepted connection marks it ended, hence releases it ---- *)
+Lemma run_snoc h e : run (h ++ [e]) = step (run h) e.
+Proof. unfold run. rewrite fold_left_app. reflexivity. Qed.
+
+Lemma end_sets_ended r c :
+  joined c = true -> (forall x, r <> Refused x) -> ended (end_with r c) = true /\ joined (end_with r c) = true.
+Proof.
+  intros J Hr. unfold end_with. rewrite J. cbn [negb].
+  destruct r; try (split; [reflexivity|exact J]). exfalso. eapply Hr. reflexivity.
+Qed.
+
+Lemma joined_end r c : joined (end_with r c) = joined c.
+Proof. unfold end_with. destruct (negb (joined c)) eqn:E; [reflexivity|]. destruct r; reflexivity. Qed.
+
+Lemma any_end_releases h id r c :
+  (forall x, r <> Refused x) ->
+  clk id (run (h ++ [EEnd id r])) = Some c -> joined c = true -> held (settle c) = [].
+Proof.
+  intros Hr L J. apply (released_after_end (h ++ [EEnd id r]) id c L J).
+  rewrite run_snoc in L. cbn [step] in L. unfold upd in L.
+  destruct (clk id (run h)) as [c0|] eqn:L0; [|rewrite L0 in L; discriminate].
+  rewrite lookup_insert_eq in L by exact E. inversion L; subst c.
+  rewrite joined_end in J. apply (end_sets_ended r c0 J Hr).
+Qed.
+
+Lemma reader_gone_after_end h id c :
+  clk id (run h) = Some c -> joined c = true -> ended c = true -> h_reader (settle c) = false.
+Proof.
+  intros L J En. pose proof (released_after_end h id c L J En) as Hn.
+  destruct (h_reader (settle c)) eqn:Hr; [|reflexivity].
+  assert (Hin : In Reader (held (settle c))) by (apply held_holds; exact Hr).
+  rewrite Hn in Hin. destruct Hin.
+Qed.
+
+(* after its end (and its goroutines' next steps) nothing is relayed from a connection - its reader,
+   the only thing that hands its messages to the hub, is gone - nor to it - it is in no fan-out set *)
+Lemma nothing_relayed_after_end h id c :
+  clk id (run h) = Some c -> joined c = true -> ended c = true ->
+  h_reader (settle c) = false /\ forall tp sender, ~ In id (fanout (settle_all (run h)) tp sender).
+Proof.
+  intros L J En. split; [eapply reader_gone_after_end; eassumption|].
+  apply (not_listed_after_end h id c L En).
 Qed.
